@@ -22,7 +22,7 @@ func registerExtras() {
 	extrasDone = true
 	propertyRules["C03"] = append(propertyRules["C03"], ruleL1Obl, ruleRefBlock)
 	propertyRules["C01"] = append(propertyRules["C01"], ruleL1Obl, ruleRevalidate, ruleVerifyKey)
-	propertyRules["C09"] = append(propertyRules["C09"], ruleResponderWindow, ruleStaleCVRequest, ruleCVPending)
+	propertyRules["C09"] = append(propertyRules["C09"], ruleResponderWindow, ruleStaleCVRequest, ruleCVPending, ruleTypeSwitch)
 	propertyRules["C14"] = append(propertyRules["C14"], ruleDurationSrc, ruleTimestampUnit)
 	propertyRules["C10"] = append(propertyRules["C10"], ruleDurationSrc)
 	propertyRules["C16"] = append(propertyRules["C16"], ruleBlockStartRef, ruleInstantSet)
